@@ -16,6 +16,26 @@ CHECKS = {
         design_ref="DESIGN.md 7/C12",
         note="TLC, TLAPS+Z3, Go toolchain; the Go helpers are bound to the proved operators only on the finite domain",
         technique="TLA+ spec + TLAPS proof + TLC exhaustive; real helper outputs validated by TLC against the clauses"),
+    "C13": dict(
+        category="model_checking",
+        text="Gtid.tla gives GTID relations their set semantics; TLC checks a transcription of the most-recent scan "
+             "against 'a maximum exists' on all lists over a small universe, and then judges the outputs of the real "
+             "IsSlaveBehindOrEqual/IsSlaveAhead/GTIDDiff/IsSplitBrained/findMostRecentNodeAndDetectSplitbrain on every "
+             "pair of subsets of a 7-8 transaction universe (2 uuids, tags, gaps), all lists of 1-4 positions and random "
+             "large sets. Exhaustive small universe + random beyond is the right level for pure set functions.",
+        design_ref="DESIGN.md 7/C13",
+        note="TLC; the harness's own GTID formatter/parser; go-mysql's parser is code under test",
+        technique="TLA+ set-semantics spec; TLC validates rows of real function outputs (exhaustive small universe)"),
+    "C14": dict(
+        category="model_checking",
+        text="Candidate.tla states the clauses over an arbitrary result and contains a transcription of the recursive "
+             "choice; TLC checks the transcription against the clauses on all lists of <=3 positions over a grid, then "
+             "judges the real filterOutNodeFromPositions+getMostDesirableNode on all lists of 0-2 and random lists of 3-5 "
+             "positions (priorities, lags around the bound incl. unknown, chain/incomparable GTID sets, excluded host); "
+             "non-termination is caught by a watchdog / crash attribution.",
+        design_ref="DESIGN.md 7/C14",
+        note="TLC; non-negative bounds; call sites are covered by the cluster properties",
+        technique="TLA+ clause spec + algorithm model (TLC exhaustive); real outputs validated by TLC"),
 }
 
 NOT_YET = "check not built yet in this round (work in progress, see DESIGN.md 9)"
